@@ -261,13 +261,16 @@ func (w *c10World) line(c *Ctx, in string) {
 		w.do(c, in, func() {
 			handlers.VerifParseAgentRequest(w.wrap, initPackage(id, id, rr.Bytes(32), rr.Bytes(16), trickyInfo(rr)), "10.0.0."+strconv.Itoa(rr.Intn(250)))
 		})
-	case "checkin": // checkin <id> <infoseed>: COMMAND_CHECKIN callback with new metadata (same keys)
+	case "checkin": // checkin <id> <infoseed> [rekey]: COMMAND_CHECKIN callback with new metadata (same keys, or fresh ones)
 		id := mustHex(parts[1])
 		seed, _ := strconv.ParseUint(parts[2], 10, 64)
 		rr := gen.New(seed)
 		w.do(c, in, func() {
 			if a := w.ts.AgentInstance(int(id)); a != nil {
 				b := append(append([]byte{}, a.Encryption.AESKey...), a.Encryption.AESIv...)
+				if len(parts) > 3 && parts[3] == "rekey" { // the Demon started again under the same id: fresh session keys
+					b = append(rr.Bytes(32), rr.Bytes(16)...)
+				}
 				w.callback(id, agent.COMMAND_CHECKIN, append(b, encFields(trickyInfo(rr).fields(id))...))
 			}
 		})
@@ -438,8 +441,13 @@ func runC10(c *Ctx) {
 				c.Count("reg")
 				w.line(c, fmt.Sprintf("reg %s %d", gen.Pick(r, universe), r.U64()))
 			case k < 7:
-				c.Count("checkin")
-				w.line(c, fmt.Sprintf("checkin %s %d", pick(), r.U64()))
+				if r.Chance(1, 3) {
+					c.Count("checkin.rekey")
+					w.line(c, fmt.Sprintf("checkin %s %d rekey", pick(), r.U64()))
+				} else {
+					c.Count("checkin")
+					w.line(c, fmt.Sprintf("checkin %s %d", pick(), r.U64()))
+				}
 			case k < 9:
 				c.Count("sleep")
 				w.line(c, fmt.Sprintf("sleep %s %d %d", pick(), r.Intn(1000), r.Intn(100)))
